@@ -112,6 +112,7 @@ impl Rule {
         self.markers.iter().find(|m| m.name.as_str() == name)
     }
 
+    /// Markers for a path and query, which requests carry percent encoded
     fn markers(&self) -> Vec<RouteMarker> {
         let mut markers = Vec::new();
 
@@ -122,6 +123,14 @@ impl Rule {
         }
 
         markers
+    }
+
+    /// Markers for a host or a header value, which requests carry as they are
+    fn raw_markers(&self) -> Vec<RouteMarker> {
+        self.markers
+            .iter()
+            .map(|marker| RouteMarker::new(marker.name.clone(), marker.regex.clone()))
+            .collect()
     }
 
     fn route_ips(&self) -> Option<Vec<RouteIp>> {
@@ -208,7 +217,7 @@ impl Rule {
     fn host(&self, ignore_case: bool) -> Option<StaticOrDynamic> {
         Some(StaticOrDynamic::new_with_markers(
             self.source.host.as_ref()?.as_str(),
-            self.markers(),
+            self.raw_markers(),
             ignore_case,
         ))
     }
@@ -249,7 +258,7 @@ impl Rule {
                         },
                         "match_regex" => match &header.value {
                             None => continue,
-                            Some(str) => match MarkerString::new(str, self.markers(), ignore_case) {
+                            Some(str) => match MarkerString::new(str, self.raw_markers(), ignore_case) {
                                 None => continue,
                                 Some(marker) => RouteHeaderKind::MatchRegex(marker),
                             },
